@@ -168,7 +168,7 @@ def good_map(resp, cls, asked):
     return out
 
 
-def check_case(chk, case, obs, I, salt=0, two_run=True):
+def check_case(chk, case, obs, I, salt=0, two_run=True, runner=None):
     backends, op = case["backends"], case["op"]
     name = op["name"]
 
@@ -317,7 +317,7 @@ def check_case(chk, case, obs, I, salt=0, two_run=True):
             fail("mixer_isolated", {"call": name}, f"core.mixer.{name} returned {value}, expected {want}")
 
     if two_run and name not in MIXER_OPS and len(backends) >= 2:
-        noninterference(chk, case, obs, I, salt)
+        noninterference(chk, case, obs, I, salt, runner)
 
 
 def raw_monitor(chk, case, obs, fail):
@@ -383,7 +383,7 @@ def mixer_expected(name, r):
     return ["bool", bool(r[1])] if r[0] == "bool" else ["bool", False]
 
 
-def noninterference(chk, case, obs, I, salt):
+def noninterference(chk, case, obs, I, salt, runner=None):
     """T4: change only backend j's answers; everything not owned by j must stay the same."""
     global _noninterference_rng
     if _noninterference_rng is None:
@@ -397,8 +397,13 @@ def noninterference(chk, case, obs, I, salt):
     flag = FLAG_OF.get(name, "lib")
     own = [u for u in uris if G.owner_index(backends, flag, scheme_of(u)) == j]
     for m in list(other["backends"][j]["answers"]) or ["lookup_many"]:
-        other["backends"][j]["answers"][m] = G.gen_resp(rng, m, j, own, uris)
-    obs2 = I.run_case(other, salt=salt + 1)
+        if runner is not None and m == "root_directory":
+            continue  # real Backend subclasses: the root directory decides has_library_browse()
+        r = G.gen_resp(rng, m, j, own, uris)
+        if runner is not None and r == ["raise", "base"]:
+            r = ["raise", "exception"]  # a BaseException inside a pykka actor stops the actor system
+        other["backends"][j]["answers"][m] = r
+    obs2 = (runner or I.run_case)(other, salt=salt + 1)
     # the second run is itself a case: the containment monitors apply to it
     check_case(chk, other, obs2, I, salt=salt + 1, two_run=False)
     if obs["outcome"][0] != "ok" or obs2["outcome"][0] != "ok":
